@@ -77,6 +77,27 @@ LEGACY2_ASSERTIONS = (["legacyscore:" + s for s in ("constants", "parse", "categ
                       + ["legacyscore:shape:" + s for s in LEGACY2_SHAPES] + ["legacyscore:value:" + s for s in LEGACY2_VALUES]
                       + ["legacyscore:category-helper:" + s for s in LEGACY2_HELPERS])
 ASSERTIONS += LEGACY2_ASSERTIONS
+PROP["level_text"] += (" Props/C01b.lean: with the legacy scorer calculateScore MODELLED (every summand, the category rule table, bonuses, context / niche "
+                       "boosts, finiteScore) the five clauses plus strict positivity of every returned score for SearchWithPipelineOptions and "
+                       "SearchWithOptions (no hypothesis: the `score > 0` admission test), the five clauses for combineAndDeduplicateResults and for "
+                       "SearchWithFuzzy on its three exits, for SearchWithNLP on the shared-searcher branch (partial; the temporary-searcher branch "
+                       "returns an entry twice: witness theorem search_with_nlp_duplicate — that entry point is outside the property's scope), and for "
+                       "GetSuggestions (at most max, candidate list sorted / duplicate-free / independent of map order); calculateScore >= 0 exactly when "
+                       "the context boosts are >= 0 (negative witness proved). Bit-level correspondence of the modelled scorer and of all five entry "
+                       "points in domain legacy2, incl. an overflow stream (category product beyond the float range, saturated by finiteScore).")
+PROP["level_note"] += (" Legacy entry points: literals, tables and the category helper functions are regenerated from search.go on every run; the control "
+                       "flow of 23 functions is pinned by whole-body shape assertions (legacyscore:shape:*). SearchWithOptions / SearchWithFuzzy / "
+                       "SearchWithNLP are exported but unused by CLI and cache layer: known deviations there (duplicate on a database value without "
+                       "TF-IDF searcher; Platforms / NoCrossPlatform / AllPlatforms / PipelineOnly ignored) are counted under out-of-scope:* tags, not reported.")
+PROP["rule"] += ("; legacy2 stream: databases of 0-22 (thorough: -60) entries drawn from a pool aimed at every branch of the legacy scorer (exact / prefix / "
+                 "word / substring command matches, domain table, every category helper, keyword / tag exact vs partial, niche), 2-4 queries each "
+                 "(category and domain words, re-cased, Unicode white space, non-ASCII, invalid UTF-8, empty, long repetitions), context boosts present / "
+                 "absent / zero / negative / 1e6, limits incl. 2^62+1 and MaxInt64, each request through calculateScore, its parts, "
+                 "SearchWithPipelineOptions, SearchWithOptions, performFuzzySearch, SearchWithFuzzy, SearchWithNLP with and without shared searcher, "
+                 "combineAndDeduplicateResults on arbitrary lists, GetSuggestions; coverage obligation coverage:legacy2-branches")
+PROP["assumptions"] += ["finiteScore keeps non-negative scores non-negative (FinOK; true of the IEEE function)",
+                        "SearchWithNLP shared branch: TF-IDF ranking duplicate-free, best first, non-negative (RankOK; PROVED for the model of the searcher)",
+                        "GetSuggestions duplicate-freeness: no candidate word contains a space before the NUL replacement (SpaceFree; monitored: oracle-suggestion-word-with-space)"]
 
 
 def legacy2_stages(ctx, quick, hit_props=None):
